@@ -42,7 +42,12 @@ def fold_catalogue(repo, ev):
         v = ev.global_value(m, name)
         if isinstance(v, Obj) and v.cls is cls:
             out[name] = (v, binds[-1][0], binds[-1][1])
+        elif not isinstance(v, Obj):
+            UNFOLDED.append((name, binds[-1][1]))
     return out
+
+
+UNFOLDED = []
 
 
 def fr(v):
@@ -332,14 +337,19 @@ def run(repo, rep):
     thorough = rep.tier == 'thorough'
     ev = Evaluator(repo)
     ev.fold_const_types = True      # catalogue entries are literals: their python types are known
+    ev.dates_are_typed = True       # ... and a date literal is a datetime.date (an entry may be re-referenced: -a_to_b + date(...))
     rep.trust('python ast of geodepy/constants.py; abstract evaluation of Transformation.__init__/__neg__/__add__ and iers2trans (sv/symval.py)')
     rep.trust('tolerances of the chain rule: published rounding 0.1 mm / 0.01 ppb / 0.01 mas (x 1.5 for a triple), year of 365.25 days')
     rep.assume('dates are modelled by their proleptic Gregorian ordinal; round(x, 8) of a literal is folded exactly')
     # re-referencing, negating and unit conversion depend on the set and the epoch given, not on earlier calls
     from . import common
     common.state_rule(repo, rep, [('geodepy.constants', 'Transformation.__add__'), ('geodepy.constants', 'Transformation.__neg__'), ('geodepy.constants', 'iers2trans')])
+    del UNFOLDED[:]
     cat = fold_catalogue(repo, ev)
     rep.extra['catalogue_entries'] = len(cat)
+    for name_, st_ in UNFOLDED:
+        rep.undecided('R-LABEL', 'R-LABEL::geodepy/constants.py::%s' % name_, 'geodepy/constants.py:%d' % st_.lineno,
+                      'the constant %s does not fold to a Transformation object: its labels, negation partner and chains are not decided' % name_)
     label_rules(repo, rep, cat)
     npairs = reverse_rules(repo, rep, cat)
     nlit = literal_rules(repo, rep)
